@@ -289,13 +289,10 @@ def _run_write(case: dict) -> Outcome:
         try:
             for idx, line in enumerate(writes):
                 if closes_after is not None and idx == closes_after and not closed:
-                    try:
-                        received += await asyncio.wait_for(peer_reader.read(1 << 20), 0.2) if sent_ok else b""
-                    except asyncio.TimeoutError:
-                        pass
                     peer_writer.close()
                     closed = True
-                    await asyncio.sleep(0)
+                    for _ in range(3):
+                        await asyncio.sleep(0)
                 try:
                     await transport.write(line)
                     sent_ok.append(line)
@@ -305,23 +302,16 @@ def _run_write(case: dict) -> Outcome:
                         return fail("write-error-on-open-connection", f"write {idx} {line!r} raised TransportError although the peer is open")
                 except Exception as err:  # noqa: BLE001
                     return fail(f"write-leak:{env.exc_sig(err)}", f"write {idx} {line!r} raised {err!r}")
-            if not closed:
-                want = "".join(sent_ok).encode("utf-8")
-                while len(received) < len(want):
-                    chunk = await asyncio.wait_for(peer_reader.read(1 << 20), 2.0)
-                    if not chunk:
-                        break
-                    received += chunk
-                if received != want:
-                    return fail("write-bytes-differ", f"writes {writes!r}: peer received {received[:200]!r}, expected {want[:200]!r}")
-            else:
-                want = "".join(writes[: closes_after or 0]).encode("utf-8")
-                if not want.startswith(received[: len(want)]) and received[: len(want)] != want:
-                    return fail("write-bytes-differ", f"before the peer closed it received {received[:200]!r}, expected a prefix of {want[:200]!r}")
             try:
                 await transport.disconnect()
             except Exception as err:  # noqa: BLE001
                 return fail(f"disconnect-raises:{type(err).__name__}", f"disconnect after writes raised {err!r}")
+            if not closed:
+                # the transport side is closed now: the peer reads until end of stream, no timeouts involved
+                received = await peer_reader.read(-1)
+                want = "".join(sent_ok).encode("utf-8")
+                if received != want:
+                    return fail("write-bytes-differ", f"writes {writes!r}: peer received {received[:200]!r}, expected {want[:200]!r}")
         finally:
             if not closed:
                 peer_writer.close()
